@@ -300,6 +300,7 @@ pub fn c19_build(raw: &Raw, _tier: Tier, _sched: bool) -> Scenario {
     }
     let _ = forwarder;
     let nthreads = raw.threads.len();
+    let mut extra: Vec<(StoreIx, SubId)> = vec![];
     for (t, ops) in raw.threads.iter().enumerate() {
         let th = b.thread();
         for r in ops {
@@ -322,6 +323,17 @@ pub fn c19_build(raw: &Raw, _tier: Tier, _sched: bool) -> Scenario {
                     let e = b.eff(EffKind::Thunk(vec![f]), false, stall_of(r.a));
                     Op::DispatchThunk { store: s, eff: e }
                 }
+                // clients of both stores register (and later cancel) subscribers of their own at the
+                // same time: what one store hands out must not depend on the other
+                15 if (r.k >> 4) % 2 == 0 && extra.len() < 6 => {
+                    let sub = b.sub(SubKind::Direct);
+                    extra.push((s, sub));
+                    Op::Subscribe { store: s, sub }
+                }
+                15 if !extra.is_empty() => {
+                    let (es, esub) = extra[pick(r.a, extra.len())];
+                    Op::Unsubscribe { store: es, sub: esub }
+                }
                 _ => Op::Stall(stall_of(r.a)),
             };
             b.s.threads[th].push(op);
@@ -341,6 +353,21 @@ pub fn c19_build(raw: &Raw, _tier: Tier, _sched: bool) -> Scenario {
             let at = pick(knob(raw, 12), b.s.threads[th].len() + 1);
             let op = if b.s.stores[0].droppable { Op::DropDroppable { store: 0 } } else { Op::Stop { store: 0, via_trait: false } };
             b.s.threads[th].insert(at, op);
+        }
+    }
+    // half of the cases: each store also has a channeled (blocking) subscriber, and the one of
+    // store 1 cancels the one of store 0 from inside its callback, i.e. on store 1's delivery
+    // thread (which, for same-named stores, has the same thread name as store 0's)
+    if (knob(raw, 15) >> 1) % 2 == 0 {
+        let acts1: Vec<ActId> = b.s.threads.iter().flatten().filter_map(|o| match o { Op::Dispatch { act, .. } if b.s.actions[*act as usize].store == 1 => Some(*act), _ => None }).collect();
+        let ch0 = b.sub(SubKind::Channeled { cap: 1 + (knob(raw, 15) >> 2) as usize % 3, pol: Pol::Block, default_ctor: false });
+        let ch1 = b.sub(SubKind::Channeled { cap: 2, pol: Pol::Block, default_ctor: false });
+        b.sub_mut(ch0).stall = stall_of(knob(raw, 15) >> 4);
+        b.s.prelude.push(Op::Subscribe { store: 0, sub: ch0 });
+        b.s.prelude.push(Op::Subscribe { store: 1, sub: ch1 });
+        if !acts1.is_empty() {
+            let trigger = acts1[pick(knob(raw, 11).rotate_left(7), acts1.len())];
+            b.sub_mut(ch1).on_notify_ops.push((trigger, vec![Op::Unsubscribe { store: 0, sub: ch0 }]));
         }
     }
     for a in b.s.actions.iter_mut() {
@@ -371,6 +398,24 @@ pub fn c19_check(scn: &Scenario, h: &History) -> Outcome {
     }
     if d.ops.values().any(|o| o.th >= 2000) {
         out.class("chained-unsubscribe-from-other-stores-callback");
+    }
+    // channeled subscribers: nothing is delivered after the unsubscribe() that cancelled them has
+    // returned - whichever thread of whichever store issued it
+    for (s, sd) in d.stores.iter().enumerate() {
+        for (sub, iv) in &sd.subs {
+            if !matches!(d.sub_kind(*sub), SubKind::Channeled { .. }) {
+                continue;
+            }
+            out.class("channeled-subscriber-on-each-store");
+            if let Some(ur) = iv.unsub_ret {
+                for (pos, r) in h.recs.iter().enumerate().skip(ur + 1) {
+                    if matches!(&r.ev, Ev::NotIn { sub: x, .. } if x == sub) {
+                        out.viol(format!("store {}: channeled subscriber {} was called at @{} after the unsubscribe() that cancelled it had returned at @{}", s, sub, pos, ur));
+                        break;
+                    }
+                }
+            }
+        }
     }
     // a selector object shared by the two stores: no notification of either store is lost,
     // duplicated or invented because the other store uses the object at the same time
